@@ -39,6 +39,7 @@ var c19Extras = []struct{ name, text string }{
 	{"option-values", "fn main() {\n    let a: ?int = ?3;\n    let b: ?int = none;\n    println(a.unwrap(), b.is_none(), a.unwrap_or(9), b.unwrap_or(9));\n}\n"},
 	{"match-with-only-a-default-arm", "fn pick(n: int) -> str { match n { _ => \"always\" } }\nfn main() {\n    let x = 3;\n    let v = match x { _ => x + 1 };\n    println(v, pick(1));\n    match x { _ => println(\"only default\") };\n    println(\"end\");\n}\n"},
 	{"match-without-any-arm", "fn main() {\n    let x = 3;\n    match x {};\n    match x + 1 { };\n    println(\"after\");\n}\n"},
+	{"percent-signs-in-the-keys-of-written-types", "type Load = { \"cpu%\": int, \"%d items\": int };\nlet G: { \"100%%\": int } = new { \"100%%\": 1 };\nfn show(l: { \"cpu%\": int }) -> { \"%s\": int } { new { \"%s\": l[\"cpu%\"] } }\nfn main() {\n    let s: { \"cpu%\": int, name: str } = new { \"cpu%\": 93, name: \"a\" };\n    let l: Load = new { \"cpu%\": 1, \"%d items\": 2 };\n    let many: [{ \"%v\": int }] = [new { \"%v\": 3 }];\n    let opt: ?{ \"%%\": int } = ?new { \"%%\": 4 };\n    let a: any = \"{\\\"p%\\\": 5}\".parse_json();\n    let c = a as { \"p%\": int };\n    let f = fn(o: { \"%x\": int }) -> int { o[\"%x\"] };\n    println(s, l, many, opt, c, f(new { \"%x\": 6 }), show(new { \"cpu%\": 7 }), G);\n}\n"},
 	{"compound-assignments", "fn main() {\n    let x = 7;\n    x += 1; x -= 2; x *= 3; x /= 2; x %= 5; x **= 2; x <<= 1; x >>= 1; x |= 8; x &= 12; x ^= 5;\n    println(x);\n}\n"},
 }
 
